@@ -8,6 +8,7 @@ package c20
 
 import (
 	"context"
+	"errors"
 	"fmt"
 	"io"
 	"math/rand/v2"
@@ -180,8 +181,9 @@ type nfsClient struct {
 	clientID uint64
 
 	// NFSv4.1.
-	session [16]byte
-	slotSeq uint32
+	session   [16]byte
+	slotSeq   uint32
+	createSeq uint32 // sequence of the last successful CREATE_SESSION
 
 	// NFSv4.0.
 	ooSeq   map[string]uint32
@@ -190,8 +192,36 @@ type nfsClient struct {
 	opens map[openKey]nfsv4_xdr.Stateid4
 	locks map[lockKey]nfsv4_xdr.Stateid4
 
+	// State IDs the server must no longer honour (closed opens, lock
+	// state released by CLOSE / RELEASE_LOCKOWNER / FREE_STATEID), and
+	// open state IDs superseded by a later OPEN of the same file.
+	deadLocks []deadLock
+	deadOpens []deadOpen
+	oldOpens  []deadOpen
+
+	// seqEpoch counts the seqid-bearing requests sent; lastOps are the
+	// operations of the most recent LOCK/LOCKU compound (for retransmits).
+	seqEpoch int
+	lastOps  []nfsv4_xdr.NfsArgop4
+
 	compounds int
 }
+
+type deadLock struct {
+	k       lockKey
+	stateID nfsv4_xdr.Stateid4
+	why     string
+}
+
+type deadOpen struct {
+	k       openKey
+	stateID nfsv4_xdr.Stateid4
+	why     string
+}
+
+// errSequence is returned by compound when the SEQUENCE operation itself
+// failed (e.g. NFS4ERR_BADSESSION for a client whose state was discarded).
+var errSequence = errors.New("SEQUENCE failed")
 
 func (w *nfsWorld) newClient(minor uint32, name string, rng *rand.Rand) *nfsClient {
 	w.nextGen++
@@ -250,7 +280,7 @@ func (c *nfsClient) compound(tag string, ops ...nfsv4_xdr.NfsArgop4) (res []nfsv
 			return nil, out.Status, nil, fmt.Errorf("empty reply to a SEQUENCE compound, status %d", out.Status)
 		}
 		if seq, ok := res[0].(*nfsv4_xdr.NfsResop4_OP_SEQUENCE); !ok || seq.Opsequence.GetSrStatus() != nfsv4_xdr.NFS4_OK {
-			return nil, out.Status, nil, fmt.Errorf("SEQUENCE failed, compound status %d", out.Status)
+			return nil, out.Status, nil, fmt.Errorf("%w, compound status %d", errSequence, out.Status)
 		}
 		res = res[1:]
 	}
@@ -292,6 +322,21 @@ func mkErr(op string, pi *panicInfo, err error, format string, a ...any) *client
 }
 
 func (c *nfsClient) register() *clientError {
+	st, ce := c.tryRegister()
+	if ce != nil {
+		return ce
+	}
+	if st != nfsv4_xdr.NFS4_OK {
+		return &clientError{Op: "REGISTER", Detail: fmt.Sprintf("confirmation failed with status %d", st)}
+	}
+	return nil
+}
+
+// tryRegister registers the client. The status of the confirming operation
+// (SETCLIENTID_CONFIRM, CREATE_SESSION) is returned rather than treated as
+// an error: a server may answer NFS4ERR_DELAY while it cannot discard the
+// state of a previous instance of the client.
+func (c *nfsClient) tryRegister() (nfsv4_xdr.Nfsstat4, *clientError) {
 	if c.minor == 0 {
 		res, st, pi, err := c.compound("setclientid", &nfsv4_xdr.NfsArgop4_OP_SETCLIENTID{Opsetclientid: nfsv4_xdr.Setclientid4args{
 			Client:        nfsv4_xdr.NfsClientId4{Verifier: c.verifier, Id: c.longID},
@@ -299,17 +344,17 @@ func (c *nfsClient) register() *clientError {
 			CallbackIdent: 1,
 		}})
 		if pi != nil || err != nil || st != nfsv4_xdr.NFS4_OK || len(res) != 1 {
-			return mkErr("SETCLIENTID", pi, err, "status %d", st)
+			return 0, mkErr("SETCLIENTID", pi, err, "status %d", st)
 		}
 		ok := res[0].(*nfsv4_xdr.NfsResop4_OP_SETCLIENTID).Opsetclientid.(*nfsv4_xdr.Setclientid4res_NFS4_OK)
 		c.clientID = ok.Resok4.Clientid
 		_, st, pi, err = c.compound("setclientid_confirm", &nfsv4_xdr.NfsArgop4_OP_SETCLIENTID_CONFIRM{OpsetclientidConfirm: nfsv4_xdr.SetclientidConfirm4args{
 			Clientid: c.clientID, SetclientidConfirm: ok.Resok4.SetclientidConfirm,
 		}})
-		if pi != nil || err != nil || st != nfsv4_xdr.NFS4_OK {
-			return mkErr("SETCLIENTID_CONFIRM", pi, err, "status %d", st)
+		if pi != nil || err != nil {
+			return 0, mkErr("SETCLIENTID_CONFIRM", pi, err, "status %d", st)
 		}
-		return nil
+		return st, nil
 	}
 	// EXCHANGE_ID and CREATE_SESSION are sent without SEQUENCE.
 	out, pi, err := callCompound(c.prog, &nfsv4_xdr.Compound4args{Tag: "exchange_id", Minorversion: 1, Argarray: []nfsv4_xdr.NfsArgop4{
@@ -319,24 +364,55 @@ func (c *nfsClient) register() *clientError {
 		}},
 	}})
 	if pi != nil || err != nil || out.Status != nfsv4_xdr.NFS4_OK {
-		return mkErr("EXCHANGE_ID", pi, err, "status %v", out)
+		return 0, mkErr("EXCHANGE_ID", pi, err, "status %v", out)
 	}
 	eid := out.Resarray[0].(*nfsv4_xdr.NfsResop4_OP_EXCHANGE_ID).OpexchangeId.(*nfsv4_xdr.ExchangeId4res_NFS4_OK)
 	c.clientID = eid.EirResok4.EirClientid
+	return c.createSession(eid.EirResok4.EirSequenceid)
+}
+
+// createSession sends CREATE_SESSION with the given sequence number.
+func (c *nfsClient) createSession(sequence uint32) (nfsv4_xdr.Nfsstat4, *clientError) {
 	attrs := nfsv4_xdr.ChannelAttrs4{CaMaxrequestsize: 1 << 20, CaMaxresponsesize: 1 << 20, CaMaxresponsesizeCached: 1 << 16, CaMaxoperations: 1000, CaMaxrequests: 4}
-	out, pi, err = callCompound(c.prog, &nfsv4_xdr.Compound4args{Tag: "create_session", Minorversion: 1, Argarray: []nfsv4_xdr.NfsArgop4{
+	out, pi, err := callCompound(c.prog, &nfsv4_xdr.Compound4args{Tag: "create_session", Minorversion: 1, Argarray: []nfsv4_xdr.NfsArgop4{
 		&nfsv4_xdr.NfsArgop4_OP_CREATE_SESSION{OpcreateSession: nfsv4_xdr.CreateSession4args{
-			CsaClientid: c.clientID, CsaSequence: eid.EirResok4.EirSequenceid,
+			CsaClientid: c.clientID, CsaSequence: sequence,
 			CsaForeChanAttrs: attrs, CsaBackChanAttrs: attrs,
 		}},
 	}})
-	if pi != nil || err != nil || out.Status != nfsv4_xdr.NFS4_OK {
-		return mkErr("CREATE_SESSION", pi, err, "status %v", out)
+	if pi != nil || err != nil || len(out.Resarray) != 1 {
+		return 0, mkErr("CREATE_SESSION", pi, err, "status %v", out)
 	}
-	cs := out.Resarray[0].(*nfsv4_xdr.NfsResop4_OP_CREATE_SESSION).OpcreateSession.(*nfsv4_xdr.CreateSession4res_NFS4_OK)
+	cs, ok := out.Resarray[0].(*nfsv4_xdr.NfsResop4_OP_CREATE_SESSION).OpcreateSession.(*nfsv4_xdr.CreateSession4res_NFS4_OK)
+	if !ok {
+		return out.Status, nil
+	}
 	c.session = cs.CsrResok4.CsrSessionid
 	c.slotSeq = 0
-	return nil
+	c.createSeq = sequence
+	return nfsv4_xdr.NFS4_OK, nil
+}
+
+// destroySession sends DESTROY_SESSION for the client's session.
+func (c *nfsClient) destroySession() (nfsv4_xdr.Nfsstat4, *clientError) {
+	out, pi, err := callCompound(c.prog, &nfsv4_xdr.Compound4args{Tag: "destroy_session", Minorversion: 1, Argarray: []nfsv4_xdr.NfsArgop4{
+		&nfsv4_xdr.NfsArgop4_OP_DESTROY_SESSION{OpdestroySession: nfsv4_xdr.DestroySession4args{DsaSessionid: c.session}},
+	}})
+	if pi != nil || err != nil {
+		return 0, mkErr("DESTROY_SESSION", pi, err, "")
+	}
+	return out.Status, nil
+}
+
+// destroyClientID sends DESTROY_CLIENTID for the client.
+func (c *nfsClient) destroyClientID() (nfsv4_xdr.Nfsstat4, *clientError) {
+	out, pi, err := callCompound(c.prog, &nfsv4_xdr.Compound4args{Tag: "destroy_clientid", Minorversion: 1, Argarray: []nfsv4_xdr.NfsArgop4{
+		&nfsv4_xdr.NfsArgop4_OP_DESTROY_CLIENTID{OpdestroyClientid: nfsv4_xdr.DestroyClientid4args{DcaClientid: c.clientID}},
+	}})
+	if pi != nil || err != nil {
+		return 0, mkErr("DESTROY_CLIENTID", pi, err, "")
+	}
+	return out.Status, nil
 }
 
 func (c *nfsClient) putfh(file int) nfsv4_xdr.NfsArgop4 {
@@ -350,6 +426,7 @@ func (c *nfsClient) owner(b string) nfsv4_xdr.StateOwner4 {
 // open opens file for open-owner oo (confirming the open-owner if the server
 // asks for it) and remembers the open state ID.
 func (c *nfsClient) open(oo string, file int) *clientError {
+	c.seqEpoch++
 	if _, ok := c.ooSeq[oo]; !ok {
 		c.ooSeq[oo] = 1000 * uint32(len(c.ooSeq)+1)
 	}
@@ -382,6 +459,9 @@ func (c *nfsClient) open(oo string, file int) *clientError {
 			stateID = res[1].(*nfsv4_xdr.NfsResop4_OP_OPEN_CONFIRM).OpopenConfirm.(*nfsv4_xdr.OpenConfirm4res_NFS4_OK).Resok4.OpenStateid
 		}
 	}
+	if prev, ok := c.opens[openKey{oo, file}]; ok && prev != stateID {
+		c.oldOpens = append(c.oldOpens, deadOpen{openKey{oo, file}, prev, "superseded by a later OPEN"})
+	}
 	c.opens[openKey{oo, file}] = stateID
 	return nil
 }
@@ -407,7 +487,9 @@ func (c *nfsClient) lock(oo string, file int, lo string, offset, length uint64, 
 	} else {
 		args.Locker = &nfsv4_xdr.Locker4_FALSE{LockOwner: nfsv4_xdr.ExistLockOwner4{LockStateid: lockStateID, LockSeqid: c.lockSeq[lo]}}
 	}
-	res, _, pi, err := c.compound("lock", c.putfh(file), &nfsv4_xdr.NfsArgop4_OP_LOCK{Oplock: args})
+	c.seqEpoch++
+	c.lastOps = []nfsv4_xdr.NfsArgop4{c.putfh(file), &nfsv4_xdr.NfsArgop4_OP_LOCK{Oplock: args}}
+	res, _, pi, err := c.compound("lock", c.lastOps...)
 	if pi != nil || err != nil || len(res) != 2 {
 		return nil, isNew, mkErr("LOCK", pi, err, "reply has %d results", len(res))
 	}
@@ -451,9 +533,11 @@ func (c *nfsClient) lockt(file int, lo string, reqs []locktReq) ([]nfsv4_xdr.Loc
 
 func (c *nfsClient) locku(oo string, file int, lo string, offset, length uint64) (nfsv4_xdr.Locku4res, *clientError) {
 	k := lockKey{oo, file, lo}
-	res, _, pi, err := c.compound("locku", c.putfh(file), &nfsv4_xdr.NfsArgop4_OP_LOCKU{Oplocku: nfsv4_xdr.Locku4args{
+	c.seqEpoch++
+	c.lastOps = []nfsv4_xdr.NfsArgop4{c.putfh(file), &nfsv4_xdr.NfsArgop4_OP_LOCKU{Oplocku: nfsv4_xdr.Locku4args{
 		Locktype: nfsv4_xdr.READ_LT, Seqid: c.lockSeq[lo], LockStateid: c.locks[k], Offset: offset, Length: length,
-	}})
+	}}}
+	res, _, pi, err := c.compound("locku", c.lastOps...)
 	if pi != nil || err != nil || len(res) != 2 {
 		return nil, mkErr("LOCKU", pi, err, "reply has %d results", len(res))
 	}
@@ -471,6 +555,7 @@ func (c *nfsClient) locku(oo string, file int, lo string, offset, length uint64)
 // IDs derived from it are forgotten; their lock-owners are returned.
 func (c *nfsClient) close(oo string, file int) (nfsv4_xdr.Nfsstat4, []string, *clientError) {
 	k := openKey{oo, file}
+	c.seqEpoch++
 	res, _, pi, err := c.compound("close", c.putfh(file), &nfsv4_xdr.NfsArgop4_OP_CLOSE{Opclose: nfsv4_xdr.Close4args{Seqid: c.ooSeq[oo], OpenStateid: c.opens[k]}})
 	if pi != nil || err != nil || len(res) != 2 {
 		return 0, nil, mkErr("CLOSE", pi, err, "reply has %d results", len(res))
@@ -481,10 +566,12 @@ func (c *nfsClient) close(oo string, file int) (nfsv4_xdr.Nfsstat4, []string, *c
 	}
 	var los []string
 	if st == nfsv4_xdr.NFS4_OK {
+		c.deadOpens = append(c.deadOpens, deadOpen{k, c.opens[k], "closed"})
 		delete(c.opens, k)
-		for lk := range c.locks {
+		for lk, sid := range c.locks {
 			if lk.oo == oo && lk.file == file {
 				los = append(los, lk.lo)
+				c.deadLocks = append(c.deadLocks, deadLock{lk, sid, "open closed"})
 				delete(c.locks, lk)
 			}
 		}
@@ -499,8 +586,9 @@ func (c *nfsClient) releaseLockOwner(lo string) (nfsv4_xdr.Nfsstat4, *clientErro
 	}
 	st := res[0].(*nfsv4_xdr.NfsResop4_OP_RELEASE_LOCKOWNER).OpreleaseLockowner.Status
 	if st == nfsv4_xdr.NFS4_OK {
-		for lk := range c.locks {
+		for lk, sid := range c.locks {
 			if lk.lo == lo {
+				c.deadLocks = append(c.deadLocks, deadLock{lk, sid, "lock-owner released"})
 				delete(c.locks, lk)
 			}
 		}
@@ -515,6 +603,7 @@ func (c *nfsClient) freeStateID(k lockKey) (nfsv4_xdr.Nfsstat4, *clientError) {
 	}
 	st := res[0].(*nfsv4_xdr.NfsResop4_OP_FREE_STATEID).OpfreeStateid.FsrStatus
 	if st == nfsv4_xdr.NFS4_OK {
+		c.deadLocks = append(c.deadLocks, deadLock{k, c.locks[k], "state ID freed"})
 		delete(c.locks, k)
 	}
 	return st, nil
@@ -534,4 +623,27 @@ func (c *nfsClient) renew() *clientError {
 		return mkErr("SEQUENCE", pi, err, "status %d", st)
 	}
 	return nil
+}
+
+// read sends READ of one byte with the given state ID.
+func (c *nfsClient) read(file int, stateID nfsv4_xdr.Stateid4) (nfsv4_xdr.Nfsstat4, *clientError) {
+	res, st, pi, err := c.compound("read", c.putfh(file), &nfsv4_xdr.NfsArgop4_OP_READ{Opread: nfsv4_xdr.Read4args{Stateid: stateID, Offset: 0, Count: 1}})
+	if pi != nil || err != nil || len(res) != 2 {
+		return st, mkErr("READ", pi, err, "reply has %d results", len(res))
+	}
+	return st, nil
+}
+
+// raw sends an arbitrary compound without any bookkeeping and returns the
+// status of the compound and its last result. A failing SEQUENCE counts as a
+// status, not as an error.
+func (c *nfsClient) raw(tag string, ops ...nfsv4_xdr.NfsArgop4) (nfsv4_xdr.Nfsstat4, []nfsv4_xdr.NfsResop4, *clientError) {
+	res, st, pi, err := c.compound(tag, ops...)
+	if errors.Is(err, errSequence) {
+		return st, nil, nil
+	}
+	if pi != nil || err != nil {
+		return st, nil, mkErr(tag, pi, err, "")
+	}
+	return st, res, nil
 }
